@@ -64,7 +64,7 @@ pub fn profile() -> Profile {
     p.p_mut = 110;
     p.hostile = true;
     p.p_odd_spelling = 90;
-    p.kind_w = [30, 10, 18, 14, 12, 6, 8, 0];
+    p.kind_w = [30, 10, 18, 14, 12, 6, 8, 0, 3];
     p
 }
 
